@@ -199,10 +199,12 @@ Section Policy.
   Variable M : Type.
   Definition run_prefix (passes : list (M -> M)) (k : nat) (m : M) : M := fold_left (fun a p => p a) (firstn k passes) m.
   Inductive outcome := Returned (m : M) | Reraised.
-  Definition with_policy (strict : bool) (passes : list (M -> M)) (fail_at : option nat) (m : M) : outcome :=
+  (* [restore]: on a non-fatal failure the code puts the un-optimised model back (current code) instead of
+     keeping what the completed passes -- and the half-run failing pass -- left (earlier code) *)
+  Definition with_policy (restore strict : bool) (passes : list (M -> M)) (fail_at : option nat) (m : M) : outcome :=
     match fail_at with
     | None => Returned (run_prefix passes (length passes) m)
-    | Some k => if strict then Reraised else Returned (run_prefix passes k m)
+    | Some k => if strict then Reraised else Returned (if restore then m else run_prefix passes k m)
     end.
 
   Variable R : M -> M -> Prop.           (* "computes the same function and is valid" *)
@@ -222,11 +224,15 @@ Section Policy.
     apply R_trans with (p m); [apply Hp; apply Hsub; now left | apply IH; intros q Hq; apply Hsub; now right].
   Qed.
 
-  Theorem policy_default_returns_equivalent passes k m :
+  Theorem policy_default_returns_equivalent restore passes k m :
     (forall p m, In p passes -> R m (p m)) ->
-    exists m', with_policy false passes (Some k) m = Returned m' /\ R m m'.
-  Proof. intro H. eexists. split; [reflexivity | now apply abort_at_pass_boundary]. Qed.
+    exists m', with_policy restore false passes (Some k) m = Returned m' /\ R m m'.
+  Proof. intro H. destruct restore; eexists; (split; [reflexivity|]); [apply R_refl | now apply abort_at_pass_boundary]. Qed.
 
-  Theorem policy_strict_reraises passes k m : with_policy true passes (Some k) m = Reraised.
+  (* the restoring policy needs NOTHING from the passes, not even that the failing one stopped at a pass boundary *)
+  Theorem policy_restoring_returns_input passes k m : with_policy true false passes (Some k) m = Returned m.
+  Proof. reflexivity. Qed.
+
+  Theorem policy_strict_reraises restore passes k m : with_policy restore true passes (Some k) m = Reraised.
   Proof. reflexivity. Qed.
 End Policy.
